@@ -69,6 +69,8 @@ class Ctx:
             st = enclosing_stmt(node) if not isinstance(node, (ast.stmt, ast.ExceptHandler)) else node
             c = construct or qual(node)
             s = stmt if stmt is not None else (head(st) if st is not None else norm(node))
+            if stmt is None and st is not None:
+                s = s + self._ordinal(st, s)
             loc = where(node)
         else:
             c, s, loc = construct or str(node), stmt or "", str(node)
@@ -83,6 +85,27 @@ class Ctx:
         self._keys[key] = len(self.obs)
         self.obs.append(Ob(rule, c, s, bool(ok), detail, loc, extra))
         return bool(ok)
+
+    def _ordinal(self, st, text):
+        """' #k' when the same statement text occurs several times in the enclosing function (k-th in source order)."""
+        from .core import enclosing_func, walk_local, FUNC
+        f = enclosing_func(st)
+        if f is None:
+            return ""
+        cache = self.__dict__.setdefault("_ord_cache", {})
+        key = id(f)
+        if key not in cache:
+            d = {}
+            for n in sorted([x for x in ast.walk(f) if isinstance(x, ast.stmt) and x is not f], key=lambda x: (x.lineno, x.col_offset)):
+                d.setdefault(head(n), []).append(n)
+            cache[key] = d
+        same = cache[key].get(text, [])
+        if len(same) <= 1:
+            return ""
+        for i, n in enumerate(same):
+            if n is st:
+                return f" #{i + 1}"
+        return ""
 
     def need(self, cond, rule, anchor, detail=""):
         """Fail-closed: an idiom / anchor the rule depends on must be there."""
